@@ -267,6 +267,58 @@ pub fn drive(args: &HashMap<String, String>) {
         }
         inputs.push(("token-soup".into(), t.join(" ").into_bytes()));
     }
+    // structured soup: balanced forms whose slots (name, parameter list, body) are filled with the wrong kind of thing:
+    // definition keywords of both macro systems, the defmac-only string / number functions with any number of
+    // arguments, macros calling themselves; as a whole module and as a bare form (a REPL line)
+    {
+        let kws = ["defun", "defun-inline", "defmacro", "defmac", "defconstant", "defconst", "let", "let*", "assign", "lambda", "if", "list", "qq", "unquote", "com", "mod", "include", "embed-file",
+            "string?", "number?", "symbol?", "string->symbol", "symbol->string", "string->number", "number->string", "string-append", "string-length", "substring"];
+        let atoms = ["m", "f", "X", "Y", "1", "0", "-1", "\"s\"", "()", "&rest", "@", "q", "a", "c", "+", "0xff", "m", "ARGS", "bin", "hex", "sexp"];
+        fn form(rng: &mut rand_chacha::ChaCha8Rng, kws: &[&str], atoms: &[&str], depth: usize) -> String {
+            use rand::Rng;
+            let n = rng.random_range(0..5);
+            let mut items: Vec<String> = vec![];
+            if rng.random_bool(0.7) {
+                items.push(kws[rng.random_range(0..kws.len())].to_string());
+            }
+            for _ in 0..n {
+                if depth > 0 && rng.random_range(0..3) == 0 {
+                    items.push(form(rng, kws, atoms, depth - 1));
+                } else {
+                    items.push(atoms[rng.random_range(0..atoms.len())].to_string());
+                }
+            }
+            if rng.random_range(0..12) == 0 && items.len() >= 2 {
+                let last = items.pop().unwrap();
+                format!("({} . {})", items.join(" "), last)
+            } else {
+                format!("({})", items.join(" "))
+            }
+        }
+        let sig = ["*standard-cl-21*", "*standard-cl-22*", "*standard-cl-23*", "*standard-cl-23.1*", "*standard-cl-24*", "*strict-cl-21*"];
+        for i in 0..(n * 8) {
+            let k = rng.random_range(1..4);
+            let forms: Vec<String> = (0..k).map(|_| form(&mut rng, &kws, &atoms, 2)).collect();
+            if i % 3 == 0 {
+                inputs.push(("structured-soup".into(), forms[0].clone().into_bytes()));
+            } else {
+                inputs.push(("structured-soup".into(), format!("(mod (X) (include {}) {} (m X))", sig[i % sig.len()], forms.join(" ")).into_bytes()));
+            }
+        }
+        // definition forms with a slot of the wrong kind, one by one
+        for kw in ["defun", "defun-inline", "defmacro", "defmac", "defconstant", "defconst"] {
+            for shape in ["({kw} (a) 1)", "({kw} a)", "({kw})", "({kw} a . 1)", "({kw} a 1 . 2)", "({kw} \"s\" (X) X)", "({kw} 1 (X) X)", "({kw} m () (qq (m)))", "({kw} m () (string?))", "({kw} m (X) (substring X 1))"] {
+                let f = shape.replace("{kw}", kw);
+                inputs.push(("definition-slots".into(), f.clone().into_bytes()));
+                inputs.push(("definition-slots".into(), format!("(mod (X) (include *standard-cl-23*) {f} (m X))").into_bytes()));
+                inputs.push(("definition-slots".into(), format!("(mod (X) (include *standard-cl-21*) {f} (m X))").into_bytes()));
+                // (the classic compiler spends minutes on a self-recursive macro, open finding C14-K2: thorough tier only)
+                if n > 100 || !(kw == "defmacro" && shape.contains("(qq (m))")) {
+                    inputs.push(("definition-slots".into(), format!("(mod (X) {f} (m X))").into_bytes()));
+                }
+            }
+        }
+    }
     // random bytes, REPL lines whose parenthesis count differs from their structure, deep nesting (<= 200)
     for _ in 0..n {
         let len = rng.random_range(0..40);
